@@ -191,6 +191,9 @@ def dfs(factory_spec, cfg, bound, prefix=(), max_steps=400, cap=None, recurse=Tr
                 st.violations.append({"oracle": v.oracle, "signature": v.signature, "message": v.message,
                                       "cfg": cfg, "labels": list(x.labels), "harness": factory_spec,
                                       "max_steps": max_steps})
+        if x.violations and _should_stop(st):
+            st.capped = True
+            break
         # children: deviate at every point after the prefix
         f = s = 0
         # a run that did not terminate is reported by the harness; do not fan out over its (cyclic) tail
